@@ -10,7 +10,7 @@ use serde_json::json;
 pub fn sigma11() -> Vec<char> {
     chars_of(&[
         0x61, 0x65E5, 0x10400, // unmapped, 1/3/4 bytes
-        0xFF21, 0xFF71, 0xFFE0, 0x3000, 0xFF9E, // wide A, narrow katakana A, wide cent, ideographic space (<wide> -> U+0020), narrow voiced mark
+        0xFF21, 0xFF71, 0xFF76, 0xFFE0, 0x3000, 0xFF9E, // (FF76: narrow KA, has a voiced form) wide A, narrow katakana A, wide cent, ideographic space (<wide> -> U+0020), narrow voiced mark
         0xFB01, 0x3231, 0x2460, 0xB2, // other compatibility characters that must stay
         0xE9,
     ])
@@ -33,7 +33,7 @@ pub fn run(env: &Env, run: &Run) -> (Stats, Coverage) {
     let mut st = strtree(&sigma, n, |_c, s, st| visit(env, s, st));
     st.merge(cpsweep(|c, st| {
         let x = c as u32;
-        for l in [vec![x], vec![0x61, x], vec![x, 0x61], vec![0xFF21, x], vec![x, 0xFF21], vec![0x65E5, x], vec![0x10400, x, 0xFF71]] {
+        for l in [vec![x], vec![0x61, x], vec![x, 0x61], vec![0xFF21, x], vec![x, 0xFF21], vec![0x65E5, x], vec![0x10400, x, 0xFF71], vec![x, 0xFF9E], vec![x, 0xFF9F], vec![x, 0x3099]] {
             visit(env, &from_cps(&l), st);
         }
         for a in alias_chars(c) {
@@ -55,9 +55,9 @@ pub fn run(env: &Env, run: &Run) -> (Stats, Coverage) {
     st.sample(json!({"input": ["U+65E5", "U+FF21", "U+FB01"], "expected": "U+65E5 A U+FB01 (only the fullwidth letter is replaced)"}));
     st.sample(json!({"input": ["U+3000"], "expected": "U+0020 (<wide> 0020)"}));
     let cov = Coverage {
-        rule: format!("every string of length <= {} over 13 symbols + pumped runs and ASCII block strings + every scalar value in 7 templates and next to each of its 16 other-plane aliases through width_mapping_rule of both username profiles; oracle = per-character replacement by the first code point of the <wide>/<narrow> decomposition in the profile crate's UnicodeData, read by an independent reader; idempotence on the output; non-trivial = first mapped character is not at index 0 (copy-on-first-change path with a non-empty prefix)", n),
+        rule: format!("every string of length <= {} over 14 symbols + pumped runs and ASCII block strings + every scalar value in 10 templates (incl. before the halfwidth and the combining voiced sound marks, whose images compose with kana) and next to each of its 16 other-plane aliases through width_mapping_rule of both username profiles; oracle = per-character replacement by the first code point of the <wide>/<narrow> decomposition in the profile crate's UnicodeData, read by an independent reader; idempotence on the output; non-trivial = first mapped character is not at index 0 (copy-on-first-change path with a non-empty prefix)", n),
         alphabet: json!(sigma.iter().map(|c| format!("U+{:04X}", *c as u32)).collect::<Vec<_>>()),
-        bound_completed: format!("length <= {} ({} strings) x 2 profiles; sweep 1,112,064 x 7 templates x 2", n, tree_size(sigma.len(), n)),
+        bound_completed: format!("length <= {} ({} strings) x 2 profiles; sweep 1,112,064 x 10 templates x 2", n, tree_size(sigma.len(), n)),
         exhaustive: false,
         assumptions: vec!["pinned UnicodeData 16.0.0 is authentic".into()],
         extra: json!({"code_points_with_wide_or_narrow_mapping": mapped}),
